@@ -177,26 +177,8 @@ pub fn check_decoded_bb_content(d: &Decoded, input: &BbInput) -> Result<(), Stri
     Ok(())
 }
 
-/// bigBed: a zero-length entry covers no base but the writer's sweep lets it touch min/max:
-/// alone it contributes depth 1, on top of covered bases up to (depth + number of zero-length
-/// entries at that point). Tolerated per DESIGN 1.4 rule 2; returns the admissible extra values.
-pub fn bb_zero_len_slack(input: &BbInput, st: &Stats) -> Vec<f64> {
-    let n: usize = input
-        .chroms
-        .iter()
-        .map(|c| c.entries.iter().filter(|e| e.s == e.e).count())
-        .sum();
-    if n == 0 || st.bases == 0 {
-        return vec![];
-    }
-    let mut v = vec![];
-    let mut d = 1.0;
-    while d < st.min {
-        v.push(d);
-        d += 1.0;
-    }
-    for k in 1..=n.min(64) {
-        v.push(st.max + k as f64);
-    }
-    v
+/// bigBed: a zero-length entry covers no base, so it takes no part in the depth statistics
+/// (the summary sweep once let zero-length segments raise the maximum — defect D12, fixed).
+pub fn bb_zero_len_slack(_input: &BbInput, _st: &Stats) -> Vec<f64> {
+    vec![]
 }
